@@ -27,7 +27,7 @@ PROPERTY = "C19"
 RUNS = {"quick": 6000, "thorough": 250000}
 RUN_WALL_CAP = 60.0
 REQUIRED_PROBES = {
-    "quick": ["switch_inside_generator", "adversary_write_between_events", "seed_zero_used", "list_dim_used", "triple_evaluated_3x", "unseeded_call", "pgm_checked", "measure_checked"],
+    "quick": ["switch_inside_generator", "adversary_write_between_events", "seed_zero_used", "list_dim_used", "triple_evaluated_3x", "unseeded_call", "pgm_checked", "measure_checked", "numpy_integer_seed"],
     "thorough": ["switch_inside_generator", "adversary_write_between_events", "seed_zero_used", "list_dim_used", "triple_evaluated_3x", "unseeded_call", "pgm_checked", "measure_checked", "popt_sdp_checked"],
 }
 COMPONENTS = {
@@ -42,7 +42,8 @@ RULE = (
 )
 SHRINK_ORDER = ["config", "client", "adversary", "sched", "entropy"]
 
-SEED_POOL = [0, 1, 2, 42, 2**32 - 1, 123456789, 7]
+SEED_POOL = [0, 1, 2, 42, 2**32 - 1, 123456789, 7, 2**32, 2**32 + 1, 2**63 + 5]
+SEED_FORMS = ["int", "int", "int", "np.int64", "np.uint64"]
 TOL = 1e-9
 
 
@@ -102,10 +103,10 @@ def draw_client_ops(st, n_ops, hot):
         kind = st.weighted([("gen", 10), ("hot", 8), ("unseeded", 4), ("pgm", 3), ("measure", 3)])
         if kind == "hot":
             name, params, seed = hot[st.draw(len(hot))]
-            ops.append({"op": "gen", "name": name, "params": params, "seed": seed})
+            ops.append({"op": "gen", "name": name, "params": params, "seed": seed, "seed_form": "int"})
         elif kind == "gen":
             name = GENS[st.draw(len(GENS))]
-            ops.append({"op": "gen", "name": name, "params": draw_params(st, name), "seed": SEED_POOL[st.draw(len(SEED_POOL))]})
+            ops.append({"op": "gen", "name": name, "params": draw_params(st, name), "seed": SEED_POOL[st.draw(len(SEED_POOL))], "seed_form": SEED_FORMS[st.draw(len(SEED_FORMS))]})
         elif kind == "unseeded":
             name = GENS[st.draw(len(GENS))]
             ops.append({"op": "gen", "name": name, "params": draw_params(st, name), "seed": None})
@@ -117,7 +118,7 @@ def draw_client_ops(st, n_ops, hot):
             ops.append({"op": "pgm", "d": d, "n": n, "pure": pure, "weights": w, "uniform_default": bool(st.draw(4) == 0), "seed": SEED_POOL[st.draw(len(SEED_POOL))], "bad": bool(st.draw(2))})
         else:
             d = st.int_range(1, 4)
-            ops.append({"op": "measure", "d": d, "mkind": st.choice(["povm_sqrt", "projective", "single", "incomplete"]), "outs": st.int_range(2, 4), "update": bool(st.draw(2)), "seed": SEED_POOL[st.draw(len(SEED_POOL))]})
+            ops.append({"op": "measure", "d": d, "mkind": st.choice(["povm_sqrt", "projective", "single", "incomplete"]), "outs": st.int_range(2, 4), "update": bool(st.draw(2)), "as_tuple": bool(st.draw(3) == 0), "seed": SEED_POOL[st.draw(len(SEED_POOL))]})
     return ops
 
 
@@ -128,7 +129,7 @@ def draw_adversary_ops(st, n):
         if kind == "np_seed":
             ops.append({"adv": "np_seed", "k": st.draw(1 << 32)})
         elif kind == "np_seed_pool":
-            ops.append({"adv": "np_seed", "k": SEED_POOL[st.draw(len(SEED_POOL))]})
+            ops.append({"adv": "np_seed", "k": SEED_POOL[st.draw(len(SEED_POOL))] % 2**32})
         elif kind == "np_draw":
             ops.append({"adv": "np_draw", "n": 1 + st.draw(64)})
         elif kind == "py_seed":
@@ -158,16 +159,27 @@ def preload():
     import scipy.linalg  # noqa: F401
 
 
-def call_gen(R, name, params, seed):
+def as_seed(seed, form):
+    """The seed as the caller would pass it: a Python int or a numpy integer scalar of the same value."""
+    if seed is None or form == "int":
+        return seed
+    if form == "np.int64" and seed < 2**63:
+        return np.int64(seed)
+    if form == "np.uint64" and seed < 2**64:
+        return np.uint64(seed)
+    return seed
+
+
+def call_gen(R, name, params, seed, form="int"):
     fn = getattr(R, name)
     try:
-        return ("ok", fn(**params, seed=seed))
+        return ("ok", fn(**params, seed=as_seed(seed, form)))
     except Exception as e:  # library exception: recorded, judged by the oracle
         return ("exc", type(e).__name__, str(e)[:200])
 
 
-def triple_key(name, params, seed):
-    return json.dumps([name, params, seed], sort_keys=True)
+def triple_key(name, params, seed, form="int"):
+    return json.dumps([name, params, seed, form], sort_keys=True)
 
 
 def same(a, b):
@@ -227,12 +239,12 @@ def run(cs, tier, run_index):
         triples = {}
         for ops in client_ops:
             for op in ops:
-                for name, params, seed in expand_gen_calls(op):
+                for name, params, seed, form in expand_gen_calls(op):
                     if seed is not None:
-                        triples.setdefault(triple_key(name, params, seed), (name, params, seed))
+                        triples.setdefault(triple_key(name, params, seed, form), (name, params, seed, form))
         ref = {}
-        for key, (name, params, seed) in triples.items():
-            ref[key] = call_gen(R, name, params, seed)
+        for key, (name, params, seed, form) in triples.items():
+            ref[key] = call_gen(R, name, params, seed, form)
             log.add("ref", key, outcome_digest(ref[key]))
 
         # ---- clients ---------------------------------------------------------
@@ -283,42 +295,46 @@ def run(cs, tier, run_index):
         counts = {}
         for i in range(n_clients):
             for k, op, out, s0, s1 in records[i]:
-                log.add("op", f"c{i}", k, op["op"], op.get("name", ""), json.dumps(op.get("params", ""), sort_keys=True), op.get("seed"), [outcome_digest(o) for (_, _, _, o) in out["calls"]])
-                for name, params, seed, o in out["calls"]:
+                log.add("op", f"c{i}", k, op["op"], op.get("name", ""), json.dumps(op.get("params", ""), sort_keys=True), op.get("seed"), [outcome_digest(c[3]) for c in out["calls"]])
+                for name, params, seed, o, form in out["calls"]:
                     if seed is None:
                         res.probe("unseeded_call")
                         check_kind(res, name, params, seed, o)
                         continue
-                    key = triple_key(name, params, seed)
+                    key = triple_key(name, params, seed, form)
                     counts[key] = counts.get(key, 0) + 1
+                    if form != "int":
+                        res.probe("numpy_integer_seed")
                     if seed == 0:
                         res.probe("seed_zero_used")
                     res.checks_sim += 1
                     if not same(o, ref[key]):
-                        res.violate("C19.repro", gen=name, params=params, seed=seed, where=f"client c{i} op {k}", expected=outcome_digest(ref[key]), observed=outcome_digest(o), switches=sch.switches, adversary_ops=len(adv_ops))
+                        res.violate("C19.repro", gen=name, params=params, seed=seed, seed_form=form, where=f"client c{i} op {k}", expected=outcome_digest(ref[key]), observed=outcome_digest(o), switches=sch.switches, adversary_ops=len(adv_ops))
                     check_kind(res, name, params, seed, o)
                 if op["op"] == "pgm":
                     check_pgm(res, op, out, tier, cs)
                 elif op["op"] == "measure":
                     check_measure(res, op, out)
         # once more after everything finished
-        for key, (name, params, seed) in triples.items():
-            again = call_gen(R, name, params, seed)
+        for key, (name, params, seed, form) in triples.items():
+            again = call_gen(R, name, params, seed, form)
             res.checks_sim += 1
             if not same(again, ref[key]):
-                res.violate("C19.repro", gen=name, params=params, seed=seed, where="after all threads finished", expected=outcome_digest(ref[key]), observed=outcome_digest(again), switches=sch.switches, adversary_ops=len(adv_ops))
+                res.violate("C19.repro", gen=name, params=params, seed=seed, seed_form=form, where="after all threads finished", expected=outcome_digest(ref[key]), observed=outcome_digest(again), switches=sch.switches, adversary_ops=len(adv_ops))
         # different seeds -> different objects
         by_np = {}
-        for key, (name, params, seed) in triples.items():
-            by_np.setdefault(json.dumps([name, params], sort_keys=True), []).append((seed, key))
+        for key, (name, params, seed, form) in triples.items():
+            if form == "int":
+                by_np.setdefault(json.dumps([name, params], sort_keys=True), []).append((seed, key))
         for npk, lst in by_np.items():
             name, params = json.loads(npk)
             if not has_continuous_dof(name, params):
                 continue
             if len(lst) == 1:
-                # evaluate one other seed so that every hot triple is compared at least once
-                other = next(s for s in SEED_POOL if s != lst[0][0])
-                lst = lst + [(other, None)]
+                # evaluate other seeds so that every triple is compared at least once: a neighbour, and
+                # the seeds that collide with it if seeds were reduced modulo 2**32 or 2**64
+                s0 = lst[0][0]
+                lst = lst + [(s0 ^ 1, None), (s0 + 2**32, None), (s0 + 2**64, None)]
             outs = []
             for seed, key in lst:
                 outs.append((seed, ref[key] if key else call_gen(R, name, params, seed)))
@@ -358,17 +374,17 @@ def run(cs, tier, run_index):
 def expand_gen_calls(op):
     """The (name, params, seed) generator calls an op will make (for the reference model)."""
     if op["op"] == "gen":
-        return [(op["name"], op["params"], op["seed"])]
+        return [(op["name"], op["params"], op["seed"], op.get("seed_form", "int"))]
     if op["op"] == "pgm":
         if op["pure"]:
-            return [("random_states", {"n": op["n"], "d": op["d"]}, op["seed"])]
-        return [("random_density_matrix", {"dim": op["d"], "is_real": False, "k_param": None, "distance_metric": "haar"}, (op["seed"] + j) % (2**32)) for j in range(op["n"])]
+            return [("random_states", {"n": op["n"], "d": op["d"]}, op["seed"], "int")]
+        return [("random_density_matrix", {"dim": op["d"], "is_real": False, "k_param": None, "distance_metric": "haar"}, (op["seed"] + j) % (2**32), "int") for j in range(op["n"])]
     if op["op"] == "measure":
-        calls = [("random_density_matrix", {"dim": op["d"], "is_real": False, "k_param": None, "distance_metric": "haar"}, op["seed"])]
+        calls = [("random_density_matrix", {"dim": op["d"], "is_real": False, "k_param": None, "distance_metric": "haar"}, op["seed"], "int")]
         if op["mkind"] in ("povm_sqrt", "incomplete"):
-            calls.append(("random_povm", {"dim": op["d"], "num_inputs": 1, "num_outputs": op["outs"]}, op["seed"]))
+            calls.append(("random_povm", {"dim": op["d"], "num_inputs": 1, "num_outputs": op["outs"]}, op["seed"], "int"))
         else:
-            calls.append(("random_unitary", {"dim": op["d"], "is_real": False}, op["seed"]))
+            calls.append(("random_unitary", {"dim": op["d"], "is_real": False}, op["seed"], "int"))
         return calls
     return []
 
@@ -376,8 +392,8 @@ def expand_gen_calls(op):
 def exec_op(R, pgm_f, pbm_f, measure_f, op):
     """Runs inside a client thread (traced).  Only library calls, no oracles."""
     out = {"calls": []}
-    for name, params, seed in expand_gen_calls(op):
-        out["calls"].append((name, params, seed, call_gen(R, name, params, seed)))
+    for name, params, seed, form in expand_gen_calls(op):
+        out["calls"].append((name, params, seed, call_gen(R, name, params, seed, form), form))
     if op["op"] == "pgm":
         objs = [c[3] for c in out["calls"]]
         if any(o[0] != "ok" for o in objs):
@@ -413,8 +429,9 @@ def exec_op(R, pgm_f, pbm_f, measure_f, op):
             u = objs[1][1]
             kraus = np.outer(u[:, 0], u[:, 0].conj())
         out["rho"], out["kraus"] = rho, kraus
+        arg = tuple(kraus) if (op.get("as_tuple") and isinstance(kraus, list)) else kraus
         try:
-            out["measure"] = ("ok", measure_f(rho, kraus, state_update=op["update"]))
+            out["measure"] = ("ok", measure_f(rho, arg, state_update=op["update"]))
         except Exception as e:
             out["measure"] = ("exc", type(e).__name__, str(e)[:200])
     return out
